@@ -263,7 +263,7 @@ def trees(ctx, deep):
     for u in pair_cases():
         yield "pairs", u
     big = ctx.tier == "thorough" or deep
-    n = 30000 if big else 1600
+    n = 30000 if big else 1300
     maxd = 6 if big else 5
     g = L.TreeGen(ctx.rng, exotic=0.04)
     for _ in range(n):
@@ -380,7 +380,7 @@ def run(ctx, deep=False):
         ctx.correspond("corr/c01:sqlite-grammar(real SQLite grouping == model sqlite table)", gc, gi, gm)
         # model-level verdicts per dialect: wb / reading == tree, and the general theorem's
         # hypotheses (Core, WG) and conclusion (ok) evaluated on the built element
-        step = max(1, len(cases) // 6000)
+        step = max(1, len(cases) // (6000 if (ctx.tier == "thorough" or deep) else 3000))
         vcases = cases[::step]
         vout = ctx.driver(["expr parse %s %s" % (c["dialect"], " ".join(L.wire(c["u"]))) for c in vcases])
         bad_wg, bad_thm = [], []
@@ -400,6 +400,30 @@ def run(ctx, deep=False):
                     bad_thm.append(c)
         ctx.obligation("model: every core element built by the constructors is well grouped (WG)", not bad_wg, json.dumps(bad_wg[:2]))
         ctx.obligation("model: core + WG elements are ok / read back (executable instance of core_render_read_back)", not bad_thm, json.dumps(bad_thm[:2]))
+    # ---- the Lean semantics (evalNumU / evalBoolU, the meaning used by api_tree_value_*) against
+    # the real SQLite, on trees of the theorem's fragment, every row of the table
+    if ctx.driver_ok():
+        nfrag = 1500 if (ctx.tier == "thorough" or deep) else 250
+        ecases, ereqs, eimpl = [], [], []
+        rows3 = [(r[1], r[2], r[3]) for r in orc.db.rows]
+        for _ in range(nfrag):
+            u = L.frag_bool(ctx.rng, ctx.rng.randint(1, 3)) if ctx.rng.random() < 0.6 else L.frag_num(ctx.rng, ctx.rng.randint(1, 4))
+            ref = orc.db.run_sql(L.ref_sql(u))
+            if isinstance(ref, str):
+                continue
+            ctx.count("eval-corr-tree")
+            isb = L.utype(u) == "bool"
+            w = " ".join(L.wire(u))
+            for (a, b, c), v in zip(rows3, ref):
+                ecases.append({"u": u, "row": [a, b, c]})
+                ereqs.append("expr evalu %s %s %s %s" % (L.wire_val(a), L.wire_val(b), L.wire_val(c), w))
+                if v is None:
+                    eimpl.append("ok N")
+                elif isb:
+                    eimpl.append("ok T" if v == 1 else "ok F")
+                else:
+                    eimpl.append("ok i%d" % v if isinstance(v, int) else "ok other")
+        ctx.correspond("corr/c01:eval(Lean meaning of fragment trees == real SQLite, every row)", ecases, eimpl, ctx.driver(ereqs))
     orc.close()
     ctx.exhaustive = False
 
